@@ -350,7 +350,7 @@ func genScenario(c *rig.Ctx, i int) Case {
 			maybe(50, func() { ops = append(ops, g.release(), g.acquire()) })
 			maybe(20, func() { ops = append(ops, errReply()) })
 		}
-	case 8: // failed acquire requests that carried tokens, then recovery: the tokens must not stay accounted
+	case 8: // failed or refused acquire requests that carried tokens, then recovery: the tokens must not stay accounted
 		g.kindMI = false
 		s := g.schema(false)
 		s.Strategy = "globalCount"
@@ -360,10 +360,16 @@ func genScenario(c *rig.Ctx, i int) Case {
 		ops = append(ops, Op{Op: "schema", Schema: &s})
 		ready()
 		ops = append(ops, Op{Op: "reconcile"})
+		// the requests fail (an error), are refused (no error, not accepted), or a mix of both
+		mode := g.n(3)
 		for k := 0; k < 2+g.n(5); k++ {
 			ops = append(ops, Op{Op: "event"})
 			op := g.tickOp(0)
-			op.Ans = &TickAns{Err: rig.Pick(g.c.Rng, []string{"timeout", "limiter server unavailable"})}
+			if mode == 0 || (mode == 2 && g.n(2) == 0) {
+				op.Ans = &TickAns{Err: rig.Pick(g.c.Rng, []string{"timeout", "limiter server unavailable"})}
+			} else {
+				op.Ans = &TickAns{Accept: false, Limit: rig.Pick(g.c.Rng, []int64{0, 0, -1, 1, 1000})}
+			}
 			ops = append(ops, op)
 		}
 		// the server is back; it grants nothing at first, so the reserve stays empty and there is room to ask
